@@ -9,8 +9,16 @@ fn show(name: &str, a: In, out: Out) {
     println!("{{\"f\":\"{}\",\"in\":{:?},\"out\":{:?}}}", name, a, out);
 }
 
+fn may(name: &str, a: In, f: fn(In) -> Out) {
+    match std::panic::catch_unwind(|| f(a)) {
+        Ok(out) => show(name, a, out),
+        Err(_) => println!("{{\"f\":\"{}\",\"in\":{:?},\"out\":\"panic\"}}", name, a),
+    }
+}
+
 #[test]
 fn dump() {
+    std::panic::set_hook(Box::new(|_| {}));
     let mut seed = 0xC0FFEE_u64;
     let mut inputs: Vec<In> = vec![[0; 6], [1, 2, 3, 4, 5, 6], [6, 5, 4, 3, 2, 1], [3, 3, 3, 3, 3, 3], [0, 7, 0, 7, 1, 1]];
     for i in 0..120 {
@@ -48,6 +56,12 @@ fn dump() {
         if !cfg!(debug_assertions) {
             show("z_wrap", a, z_wrap(a));
         }
+        may("p_index", a, p_index);
+        may("p_ranges", a, p_ranges);
+        may("p_arith", a, p_arith);
+        may("p_unwrap", a, p_unwrap);
+        may("p_slices", a, p_slices);
+        may("p_asserts", a, p_asserts);
         // functions with overflow-prone arithmetic only on small inputs
         if a.iter().all(|x| *x < 1000) {
             show("z_option", a, z_option(a));
